@@ -53,7 +53,7 @@ def spec_from_seed(run_seed, tier):
         return f"|schulz_zimm({Mw}, {Mn})|"
 
     text = re.sub(r"\|[a-z_]+\([^)]*\)\|", rep, text)
-    return {"kind": "atomgraph", "prop": "C18", "text": text, "tags": sorted(tags),
+    return {"kind": "atomgraph", "prop": "C18", "text": text, "tags": sorted(tags), "regenerate": rnd.choice([0, 0, 1, 2]),
             "sched": {"seed": rnd.randrange(1 << 48), "choice_policy": rnd.choice(["faithful", "uniform_support", "rare", "mix", "first", "last"]),
                       "draw_policy": rnd.choice(["natural", "low", "mid", "tails"]), "script": None, "budget": 3000}}
 
@@ -129,6 +129,37 @@ def execute(spec):
             if exc2 is not None or _canon(ag2) != _canon(ag):
                 viol("same_schedule_different_molecule", f"replaying the outcome script gave {('exception ' + repr(exc2)) if exc2 else _canon(ag2)} instead of {_canon(ag)}")
             stats["replays"] = 1
+        # an AtomGraph object is a sampler: generating again from the same object (how an ensemble is drawn) must again
+        # give one whole molecule, whatever the first generation left behind in the object
+        if spec.get("regenerate") and not viols:
+            for _ in range(spec["regenerate"]):
+                world_r = World(sched, embed="stub")
+                exc_r = None
+                with world_r:
+                    try:
+                        ag.generate()
+                    except (BudgetExceeded, DrawDiverges) as e:
+                        exc_r = e
+                    except SimAbort:
+                        raise
+                    except Exception as e:
+                        exc_r = e
+                stats["regenerations"] = stats.get("regenerations", 0) + 1
+                if exc_r is not None:
+                    ef = ["exc=" + type(exc_r).__name__, "regenerate"]
+                    if "updating stopped" in str(exc_r):
+                        ef.append("msg=updating stopped")
+                    if any(e["k"] == "draw_fail" for e in world_r.log):
+                        ef.append("draw_fail")
+                    inv = "generation_does_not_terminate" if isinstance(exc_r, (BudgetExceeded, DrawDiverges)) else "generation_raised"
+                    viol(inv, f"AtomGraph.generate called again on the same object: {exc_r!r}", ef)
+                    break
+                n_before = len(viols)
+                _audit(ast, sg, ag, viol, stats)
+                for v in viols[n_before:]:
+                    v["msg"] = "[generate() called again on the same AtomGraph] " + v["msg"]
+                if viols:
+                    break
         return _result(spec, viols, world, sched, stats, n_multi, n_inst)
     except WallTimeout:
         return {"harness_error": "wall-clock watchdog fired", "violations": []}
